@@ -258,6 +258,40 @@ pub static OPS: &[OpDef] = &[
                 w_dbg(o, &e)
             }
         }
+        // a gap-free regular triangle grid of about the same size with copies of every 20th triangle
+        // scattered over later positions (two meshes concatenated): every edge of a copied triangle occurs three times
+        let g = (((n / 2) as f64).sqrt() as usize).clamp(3, 24);
+        let cc = |x: usize, y: usize| Coord { x: x as f64, y: y as f64 };
+        let mut base: Vec<Triangle<f64>> = Vec::with_capacity(2 * g * g);
+        for y in 0..g {
+            for x in 0..g {
+                base.push(Triangle::new(cc(x, y), cc(x + 1, y), cc(x, y + 1)));
+                base.push(Triangle::new(cc(x + 1, y + 1), cc(x, y + 1), cc(x + 1, y)));
+            }
+        }
+        let m = base.len();
+        let mut after: Vec<Vec<usize>> = vec![vec![]; m + 1];
+        for k in (0..m - 1).step_by(20) {
+            state = state.wrapping_mul(6364136223846793005).wrapping_add(1442695040888963407);
+            after[k + 1 + (state >> 33) as usize % (m - k - 1)].push(k);
+        }
+        let mut grid = Vec::with_capacity(m + m / 20 + 1);
+        for (k, t) in base.iter().enumerate() {
+            grid.push(*t);
+            for &src in &after[k] {
+                grid.push(base[src]);
+            }
+        }
+        match grid.stitch_triangulation() {
+            Ok(mp) => {
+                o.tag(1);
+                w_mpoly(o, &mp)
+            }
+            Err(e) => {
+                o.tag(0);
+                w_dbg(o, &e)
+            }
+        }
     }),
     op!("earcut_triangles", POLY_FAMS, false, false, |i, o| {
         for p in i.a.0.iter().take(50) {
